@@ -209,18 +209,22 @@ impl Prop for C11 {
             ));
         }
         // (e) T1 to T2 -----------------------------------------------------------------------
-        f.push(Family::new(
-            "difference",
-            Mode::Full,
-            "'T1 to T2' for all ordered pairs of a 24-time grid (every hour at a varying minute): the absolute difference in seconds",
-            move |ch| {
-                let grid: Vec<(String, i64)> = (0..24i64).map(|h| (format!("{}:{:02}", h, (h * 7) % 60), hms(h, (h * 7) % 60, 0))).collect();
-                let (a, av) = ch.pick(&grid).clone();
-                let (b, bv) = ch.pick(&grid).clone();
-                let line = LineCase::new(format!("{} to {}", a, b), Expect::Unspecified, "difference");
-                Some(Case::Line { line, want: Want::Duration((av - bv).abs()) })
-            },
-        ));
+        {
+            let dz = default_zones(tier);
+            f.push(Family::new(
+                "difference",
+                Mode::Full,
+                "'T1 to T2' for all ordered pairs of a 24-time grid (every hour at a varying minute) under every default zone (so that the two wall times also lie on different UTC days): the absolute difference in seconds",
+                move |ch| {
+                    let grid: Vec<(String, i64)> = (0..24i64).map(|h| (format!("{}:{:02}", h, (h * 7) % 60), hms(h, (h * 7) % 60, 0))).collect();
+                    let (tzset, _, _) = *ch.pick(&dz);
+                    let (a, av) = ch.pick(&grid).clone();
+                    let (b, bv) = ch.pick(&grid).clone();
+                    let line = LineCase::new(format!("{} to {}", a, b), Expect::Unspecified, "difference").with_cfg(cfg_tz(tzset));
+                    Some(Case::Line { line, want: Want::Duration((av - bv).abs()) })
+                },
+            ));
+        }
         // (f) set_timezone / get_time_offset ----------------------------------------------
         {
             let mut names: Vec<(String, Option<(String, i32)>)> = Vec::new();
